@@ -100,7 +100,17 @@ def run_shape(pid, tier, t0):
     res = vlib.replay_slice("MC_Shape.tla", "MC_Shape.cfg", shape_consts(tier), ez, tag="shape", timeout=3000)
     return report_replay(pid, [("MC_Shape", res)], tier, t0, assumptions=SHAPE_ASSUME)
 
+def frames_consts(tier):
+    return {"NTags": 2, "NCallers": 1, "MaxFrames": 2 if tier == "quick" else 3, "IdxSlack": 2}
+
+def run_frames(pid, tier, t0):
+    ez = vlib.build("plain")
+    res = vlib.replay_slice("MC_Frames.tla", "MC_Frames.cfg", frames_consts(tier), ez, tag="frames", timeout=6000)
+    return report_replay(pid, [("MC_Frames", res)], tier, t0, assumptions=SHAPE_ASSUME)
+
 CHECKS = {
+    "C06": run_frames,
+    "C08": run_frames,
     "C05": run_shape,
     "C07": run_shape,
     "C10": run_shape,
